@@ -566,6 +566,19 @@ def check_s7(chk, m, K):
         if p.ret == ("null",):
             continue
         ok = len(ex) == 1 and p.ret == paths.mkptr(ex[0].res, -K.link_off)
+        if not ok and not ex:
+            # the head of the TIMER queue popped instead: it is what the expiry walk followed by a pop of the run queue would have
+            # produced exactly when the run queue is empty and that head is already due (it would have been moved first, to the front
+            # of an empty queue); the rest of the walk must still run (C02 T3.expiry-every-pass)
+            ext = [e for k, e in fib.calls_on(p) if e.callee == "list_extract" and K.queue_arg(e.args[0]) == "timerq"]
+            facts = fib.queue_empty_facts(p, K)
+            from . import C03 as _C03
+            if len(ext) == 1 and p.ret == paths.mkptr(ext[0].res, -K.link_off) and facts.get("runq", (None,))[0] is True \
+                    and _C03._head_already_due(p, K):
+                chk.ob("S7.pop-head", "get_next_task (timer head)", True,
+                       "pops the timer queue's head only where the run queue is empty and that head is already due: the fibre the expiry "
+                       "walk would have put at the front of the run queue", p.ret_inst.loc, fn2.name)
+                continue
         chk.ob("S7.pop-head", "get_next_task", ok, "returns containerof(list_extract(&kernel.runq)) (got %s)" % fmt(p.ret)[:60],
                fn2.loc, fn2.name)
 
